@@ -71,7 +71,20 @@ def _has_guard(fn: ast.AST, var: str) -> bool:
             tgt = n.targets[0] if isinstance(n, ast.Assign) else n.target
             if isinstance(tgt, ast.Name) and tgt.id == var and isinstance(getattr(n, "value", None), ast.BinOp):
                 grow = True
-    return test and grow
+    # a recursive function must hand the set on to every recursive call of itself
+    passes = True
+    name = getattr(fn, "name", None)
+    for n in ast.walk(fn):
+        if isinstance(n, ast.Call):
+            f = n.func
+            callee = f.attr if isinstance(f, ast.Attribute) else (f.id if isinstance(f, ast.Name) else None)
+            if callee == name:
+                handed = any(isinstance(a, ast.Name) and a.id == var for a in n.args) or \
+                    any(isinstance(k.value, ast.Name) and k.value.id == var for k in n.keywords)
+                grown = any(isinstance(k.value, ast.Name) and k.value.id == var for k in n.keywords)
+                if not (handed or grown):
+                    passes = False
+    return test and grow and passes
 
 
 def _find_nested(mod: ast.AST, name: str) -> ast.FunctionDef:
@@ -121,6 +134,16 @@ def generate(lean_dir: str):
     if not isinstance(strict, bool):
         raise P.Untranslatable("settings.STRICT is not a bool literal")
     out.append(f"def strictDefault : Bool := {'true' if strict else 'false'}\n\n")
+
+    font = P.parse_file("pdfminer/pdffont.py")
+    max_cid = P.literal(P.find_assign(font, "MAX_CID"))
+    if not isinstance(max_cid, int) or isinstance(max_cid, bool) or max_cid < 0:
+        raise P.Untranslatable("pdffont.MAX_CID is not a non-negative int literal")
+    fw = P.find_function(font, "get_widths")
+    src = ast.unparse(fw)
+    if "range(max(char1, 0), min(char2, MAX_CID) + 1)" not in src:
+        raise P.Untranslatable("get_widths no longer clamps its ranges to 0..MAX_CID")
+    out.append(f"/-- pdffont.MAX_CID; get_widths clamps `c1 c2 w` ranges to 0..MAX_CID -/\ndef maxCid : Int := {max_cid}\n\n")
 
     types = P.parse_file("pdfminer/pdftypes.py")
     doc = P.parse_file("pdfminer/pdfdocument.py")
